@@ -11,7 +11,7 @@ import build as B
 import common as H
 import sercommon as S
 from common import Case
-from props.C12 import KINDS, UNIVS, valid_desc, falsy_descs, dw_descs, retarget_descs
+from props.C12 import KINDS, UNIVS, valid_desc, falsy_descs, dw_descs, retarget_descs, equal_descs
 
 KMS = ["true", "false", "custom"]
 VMS = ["true", "false", "custom"]
@@ -105,6 +105,7 @@ class Prop:
             yield dict(fd, km=KMS[j % 3], vm=VMS[(j // 3) % 3])
         yield from dw_descs(tier, rng)
         yield from retarget_descs(tier, rng)
+        yield from equal_descs(tier, rng)
         combos = [(k, v) for k in KMS for v in VMS]
         i = 0
         for td in self.tree_descs(tier, rng):
@@ -294,6 +295,10 @@ class Prop:
 def _more_checks(self, desc, tree, cls, lkw, text0, t0):
     """further members of the property family that need a history or another mapper style"""
     ms = desc.get("mapper", "cb")
+    # (0) a BRANCH written from an inner start node (Node.to_list_iter) follows the layout of that branch
+    r = S.branch_check(desc, tree)
+    if r:
+        return r
     # (a) a deserialize mapper may consume the dict it is handed (callback and derived-class style)
     for style, tc in S.consuming_loads(cls, lkw, text0):
         if isinstance(tc, Exception):
@@ -374,6 +379,11 @@ CORPUS = [
     _d(False, ["s:a", "s:x", "s:b"], [[0, None, 1, []], [1, None, None, [[2, None, 1, []]]]], mapper="cb"),
     # D92 (fixed): plain Tree, str node with explicit id, no mapper: must simply round-trip
     _d(False, ["s:x", "s:y"], [[0, None, "k1", [[1, None, None, []]]]], mapper="none"),
+    # tree name equal to the data of a node with children, plain (str) and typed (an object that compares equal to the name)
+    dict(typed=False, univ=["s:Projects", "s:alpha", "s:beta"], nodes=[[0, None, None, [[1, None, None, [[2, None, None, []]]]]]], name="Projects",
+         km="true", vm="true", mapper="none", meta=None, calc=None),
+    dict(typed=True, univ=["s:top", "q:Projects", "s:beta"], nodes=[[0, "a", None, [[1, "a", None, [[2, "b", None, []]]]]]], name="Projects",
+         km="true", vm="true", mapper="cb", meta=None, calc=None),
     # unicode, falsy explicit ids
     _d(False, ["s:\u00e4\u20ac\U0001f600", "e:1", "s:z"], [[0, None, 0, [[1, None, "", []]]], [2, None, None, [[0, None, 0, []]]]], km="custom", vm="custom",
        meta={"\u00fc": ["\u20ac"]}),
